@@ -633,6 +633,10 @@ class Origins:
                 s_ = st[i]
                 if s_['s'] == 'assign' and s_['lhs']['l'] == local and not s_['lhs'].get('p'):
                     return ('stmt', blk_i, i)
+                if s_['s'] == 'assign' and s_['rv']['r'] in ('ref', 'rawptr') and s_['rv'].get('mut', s_['rv']['r'] == 'rawptr') and \
+                        s_['rv']['pl']['l'] == local and '*' not in (s_['rv']['pl'].get('p') or []):
+                    # `&mut local...` handed out: whoever gets it may overwrite the local (mem::swap, push, ...)
+                    return ('mutborrow', blk_i, i)
             return None
 
         # starting block
@@ -787,6 +791,12 @@ class Origins:
                 dbb = d[1]
                 t = self.b.blocks[dbb]['term']
                 terms.append(self._call(t, dbb, depth + 1))
+            elif d[0] == 'mutborrow':
+                _, dbb, dsi = d
+                prev = self.of_local(local, dbb, dsi, depth + 1)
+                while prev[0] == 'mutated':
+                    prev = prev[1]
+                terms.append(('mutated', prev))
         uniq = []
         for t in terms:
             if t not in uniq:
@@ -869,6 +879,8 @@ def term_leaves(t):
             yield from term_leaves(a)
     elif tag == 'captured':
         yield from term_leaves(t[2])
+    elif tag == 'mutated':
+        yield from term_leaves(t[1])
 
 
 def term_has(t, pred):
@@ -905,6 +917,8 @@ def term_str(t, depth=0):
         return '_%d' % t[1]
     if tag == 'captured':
         return '[%s=%s]' % (t[1], term_str(t[2], depth + 1))
+    if tag == 'mutated':
+        return 'mut(%s)' % term_str(t[1], depth + 1)
     return '?%s' % (t[1:],)
 
 
@@ -1260,4 +1274,26 @@ def primary_edges(body, edges):
             if not later:
                 keep.add(sb)
         out.extend(e for e in es if e[0] in keep)
+    return out
+
+
+def infeasible_edges(body, fx=None, origins=None, edges=None):
+    """Switch edges that contradict a discriminant known from the definition: `Err(e)?` lowers to a
+    `branch` whose Continue edge exists in the CFG but can never be taken (and likewise for a
+    match on a freshly built variant). Returned as [(bb, target)] for use as avoided edges."""
+    og = origins or Origins(body)
+    out = []
+    for sbb, tg, cond, lab in (edges if edges is not None else switch_edges(body, fx or body.facts, og)):
+        if cond[0] != 'discr' or not isinstance(lab, str):
+            continue
+        base = cond[1]
+        if base[0] != 'agg' or '::' not in str(base[1]):
+            continue
+        variant = base[1].rsplit('::', 1)[-1]
+        ty = strip_generics(cond[2] or '')
+        expect = variant
+        if ty.endswith('ops::ControlFlow'):
+            expect = {'Ok': 'Continue', 'Err': 'Break', 'Some': 'Continue', 'None': 'Break'}.get(variant, variant)
+        if lab != expect:
+            out.append((sbb, tg))
     return out
